@@ -54,9 +54,11 @@ def run(chk):
                        'E-MIR eval_node': 'raw results of the string entry points from MIR, n=2, c=1: inside the unit set and independent of every auxiliary variable',
                        'E-UNI': 'constrained instances C2, M2 (regulation constraints exclude colours): result & not unit unsatisfiable, result == semantics (hence independent of auxiliary variables)'})
     from .. import conformance
-    conformance.run(chk, 2, 1); conformance.run(chk, 3, 0, samples=2)
-    leaf_invariants(chk, 2, 1, 1)
-    leaf_invariants(chk, 2, 2, 1)
+    from ..run import guard as _guard
+    _guard(chk, 'library-model conformance', conformance.run, chk, 2, 1); _guard(chk, 'library-model conformance', conformance.run, chk, 3, 0, samples=2)
+    from ..run import guard
+    guard(chk, 'C03/E-MIR leaf invariants k=1', leaf_invariants, chk, 2, 1, 1)
+    guard(chk, 'C03/E-MIR leaf invariants k=2', leaf_invariants, chk, 2, 2, 1)
     c01.kernel_part(chk, [(2, 1)] + ([(3, 1)] if thorough else []))
     from . import c04
     scope = c04.scope_family()
